@@ -11,8 +11,8 @@ declare_class('EventDispatcher', {'g_log': TList(TStr())})                    # 
 declare_class('StreamFactory', {})
 declare_class('HDispatcher', {'g_read_listeners': TInt(), 'g_write_listeners': TInt()})
 declare_class('Stream', {'g_requests_written': TInt(), 'g_responses_read': TInt(), 'g_read_listeners_at_read': TInt(), 'g_write_listeners_at_write': TInt()})
-declare_class('HConnection', {'proxied': TBool(), 'tunneled': TBool(), 'address': TAny()})
-declare_class('HTTPRequest', {'address': TAny()})
+declare_class('HConnection', {'proxied': TBool(), 'tunneled': TBool(), 'address': TTuple(TStr(), TInt())})
+declare_class('HTTPRequest', {'address': TTuple(TStr(), TInt())})
 declare_class('HTTPSessionObj', {'_stream_factory': TObj('StreamFactory'), '_stream': TOpt(TObj('Stream')), '_request': TOpt(TObj('HTTPRequest')),
                                  '_response': TOpt(TObj('HTTPResponse')), '_session_state': TInt(), 'event_dispatcher': TObj('EventDispatcher')})
 lib.MODULES.update({'SessionState', 'functools'})
